@@ -55,3 +55,29 @@ for _f, (_params, _expr) in WRAPPERS.items():
         note="number overload; the library call is an uninterpreted function assumed to meet its textbook definition",
         props=["C17"],
     )
+
+
+# ---- the string overload of H (from hexadecimal): reaches int(text, 16)
+class _VyTypeStr(UFn):
+    def __init__(self):
+        self.name = "vy_type"
+
+    def apply(self, ex, args, kwargs):
+        from pyvc.engine import Builtin
+
+        return Builtin("str")
+
+
+def _setup_str(ex, fr):
+    fr.env["vy_type"] = _VyTypeStr()
+    ex.w.val_never_none = True
+
+
+W.contract(
+    "vyxal/elements.py::vy_hex#string",
+    params=dict(lhs=VAL, ctx=VAL), setup=_setup_str,
+    ensures=["result == int(lhs, 16)"], ensures_names=["reaches-the-defining-library-call"],
+    executor="template", frame_check=False, may_raise=True, fuel=1,
+    note="string overload (from hexadecimal): the text is handed to int(., 16), assumed to meet its definition",
+    props=["C17"],
+)
